@@ -69,7 +69,7 @@ func (r *scriptedReader) end() error {
 
 // --- value generation (shared with C06) ---
 
-var bulkLens = []int{0, 1, 2, 3, 5, 16, 255, 256, 4095, 4096, 65535, 65536}
+var bulkLens = []int{0, 1, 2, 3, 5, 16, 255, 256, 4095, 4096, 65535, 65536, 65537, 131075}
 var payloadPool = []string{"\r", "\n", "\r\n", "\x00", "+", "-", ":", "$", "*", "\r\n+OK\r\n", "$-1\r\n", "*0\r\n", ":1\r\n", "abc", "0", "-1"}
 
 func genLine(t *sim.Tape) []byte {
